@@ -9,7 +9,7 @@ from ..cfg import CFG, cond_strings
 from ..core import callee_is, AnalysisError, const_value, walk_own
 from ..defuse import DefUse, Terms, show, walk_term
 from ..defuse import key as tkey
-from ..tutil import no_uids
+from ..tutil import no_uids, data_elem
 from ..flow import Flow
 from ..paths import path_variants, return_cases
 from ..events import root_name
@@ -170,15 +170,15 @@ def _first_seen_wins(ctx, f):
         l2 = cfg.enclosing(l1, (ast.For,)) if l1 is not None else None
         if l2 is None:
             continue
-        if e.args[0] == ("elem", T.of(l2.iter)) and \
-                e.recv[2] == ("elem", T.of(l1.iter)):
+        if e.args[0] == data_elem(T.of(l2.iter)) and \
+                e.recv[2] == data_elem(T.of(l1.iter)):
             keeps.append((e, l1, l2))
     ctx.require(len(keeps) == 1, f"{f.qual}: row loop over the sorted "
                 f"stream not found ({len(keeps)} 'keep row' statements)")
     keep, ll, rl = keeps[0]
     lv_it = T.of(ll.iter)
     LEVEL = ("elem", lv_it)
-    ROW = ("elem", T.of(rl.iter))
+    ROW = data_elem(T.of(rl.iter))
     mem = []
     for n in ast.walk(ll):
         if isinstance(n, ast.Compare) and len(n.ops) == 1 and isinstance(
@@ -422,10 +422,22 @@ def _path_order(ctx, g):
         by_stmt.setdefault(id(e.stmt), []).append(e)
     # flags tested inside the loop
     flags = set()
+    flag_params = {p_ for p_ in g.params
+                   if isinstance(const_value(g.defaults().get(p_)), bool)}
     for n in ast.walk(lp):
+        tt = None
         if isinstance(n, (ast.If, ast.IfExp)):
-            for x in walk_term(T.of(n.test)):
-                if isinstance(x, tuple) and x and x[0] == "param":
+            tt = T.of(n.test)
+        elif isinstance(n, ast.For) and n is not lp:
+            # the iterable of a nested loop may have been chosen by a flag
+            # outside (kinds = ("targets", "decoys") if decoys else ...)
+            tt = T.of(n.iter)
+        if tt is not None:
+            for x in walk_term(tt):
+                if isinstance(x, tuple) and len(x) == 2 and \
+                        x[0] == "param" and (
+                            x[1] in flag_params
+                            or not isinstance(n, ast.For)):
                     flags.add(x[1])
     flags = sorted(flags)
     ctx.require(len(flags) <= 5, f"{g.qual}: too many flags in the loop")
@@ -614,7 +626,16 @@ def header_data_agreement(ctx, rule_id):
             return [y for x in t[1] for y in lists_in(x)]
         if t[0] == "ifexp":
             return lists_in(t[2]) + lists_in(t[3])
-        return [t] if t[0] == "list" else []
+        if t[0] == "list":
+            return [t]
+        if t[0] == "bin" and t[1] == "+":
+            # ["a", "b"] + extra + ["c"]: the same sequence as a display
+            # with the middle spliced in
+            ps = concat_parts(t)
+            if any(k == "item" for k, _x in ps):
+                return [("list", tuple(x if k == "item" else ("star", x)
+                                       for k, x in ps))]
+        return []
 
     def parts(t):
         """concat_parts with *x items of displays turned into splices"""
@@ -1189,10 +1210,11 @@ def _retained_rows(ctx):
     ok_s = False
     data_t = None
     for (r, a, v, st) in du.attr_stores:
-        if r == "self" and a == "scores" and "loc" in ast.unparse(v):
+        if r == "self" and a == "scores":
             t = T.of(v)
-            data_t = t
-            ok_s = _has_attr(t, "_score_column") and _has_read(t)
+            if _has_attr(t, "_score_column") and _has_read(t):
+                data_t = t
+                ok_s = True
     tg_ok = False
     for (r, a, v, st) in du.attr_stores:
         if r == "self" and a == "targets":
